@@ -17,12 +17,119 @@ RULE = ("records built through the public API (MafRecord + column objects) for e
         "the un-mixed base class, a subclass), wrong count / order / name, gaps, post-hoc index mutation; offered to a Strict MafWriter "
         "(direct), and sequences of 2-4 such records interleaved with conforming ones offered to direct and sorting writers; "
         "non-trivial = at least one perturbation or a sequence; distinct by hash")
-ASSUMPTIONS = ["column objects are instances of shipped classes or of classes synthesised for a built layout",
+ASSUMPTIONS = ["a Strict writer without a scheme (no-version header) has no scheme to conform to: it refuses column names the format "
+               "cannot carry with ValueError (not the format exception); whatever it accepts must be read back in full, unchanged, "
+               "by a Strict reader (judged by the oracle only; the scheme-less writer is modelled in the Reader/FileIO clusters)",
+               "column objects are instances of shipped classes or of classes synthesised for a built layout",
                "str() of list/tuple/arbitrary objects held by a plain MafColumnRecord (python repr) is not modelled: those cases are judged by the oracle only",
                "synthesised classes are identified structurally in the model; the harness never places a synthesised class of one column in another column"]
 
 
 import C05 as _C05   # the header-relabel scenario (a header edited in place, then used by a Strict writer)
+
+
+SL_NAMES = ["a", "b", "c", "Chromosome", "x y", "", "#x", "a#", "a\tb", "a\nb", "é"]
+SL_VALUES = ["", "1", "x", "a b", "#", "0", "None", "é", "a\tb", "a\nb", "a\rb"]
+
+
+def _gen_sless(rng):
+    """a Strict writer without a scheme (no-version / no-annotation header): the first record fixes the column names;
+    records may have no columns, other names, another count, values or names containing separators"""
+    k = rng.choice([0, 1, 1, 2, 3, 4])
+    pool = [n for n in SL_NAMES if rng.random() < 0.8 or n in ("a", "b", "c")]
+    names = []
+    for _ in range(k):
+        n = rng.choice(pool)
+        if n not in names:
+            names.append(n)
+    recs = []
+    for i in range(rng.randint(1, 4)):
+        r = rng.random()
+        if r < 0.15:
+            recs.append([])
+        elif r < 0.25:
+            recs.append([[n, rng.choice(SL_VALUES)] for n in (names + ["extra"])])
+        elif r < 0.33:
+            recs.append([[n, rng.choice(SL_VALUES)] for n in names[:-1]])
+        elif r < 0.4:
+            recs.append([[n + "_", rng.choice(SL_VALUES)] for n in names])
+        else:
+            recs.append([[n, rng.choice(SL_VALUES[:8] if rng.random() < 0.85 else SL_VALUES)] for n in names])
+    return {"kind": "sless", "records": recs, "mode": 1, "stream": "scheme-less", "hit": [0],
+            "with_pragmas": rng.random() < 0.5}
+
+
+def _run_sless(case):
+    from maflib.header import MafHeader
+    from maflib.writer import MafWriter
+    from maflib.reader import MafReader
+    from maflib.record import MafRecord
+    from maflib.column import MafColumnRecord
+    from maflib.validation import ValidationStringency, MafFormatException
+    hdr = MafHeader.from_defaults(version="no-version", annotation="no-annotation-specification") if case["with_pragmas"] else MafHeader()
+    buf = G._Buf()
+    out = {"open": None, "outcomes": [], "closed": None, "text": None, "reread": None, "accepted_texts": []}
+    try:
+        w = MafWriter.from_fd(buf, hdr, validation_stringency=ValidationStringency.Strict)
+    except MafFormatException as e:
+        out["open"] = "MafFormatException:" + e.tpe.name
+        return {"cmp": {"sless": True}, "extra": out}
+    for cols in case["records"]:
+        rec = MafRecord()
+        try:
+            for n, v in cols:
+                rec.add(MafColumnRecord(n, v))
+        except Exception as e:
+            out["outcomes"].append("unbuildable:" + type(e).__name__)
+            continue
+        before = len(buf.text())
+        try:
+            w += rec
+            out["outcomes"].append("accepted")
+            out["accepted_texts"].append("\t".join(v for _, v in cols))
+        except MafFormatException:
+            out["outcomes"].append("refused" if len(buf.text()) == before else "refused-but-wrote")
+        except ValueError:
+            out["outcomes"].append("refused-valueerror" if len(buf.text()) == before else "refused-but-wrote")
+        except Exception as e:
+            out["outcomes"].append("other-exception:" + type(e).__name__)
+    try:
+        w.close()
+        out["closed"] = "ok"
+    except Exception as e:
+        out["closed"] = "close-raised:" + type(e).__name__
+    text = buf.text()
+    out["text"] = text
+    try:
+        rd = MafReader(lines=text.split("\n")[:-1] if text.endswith("\n") else text.split("\n"), validation_stringency=ValidationStringency.Strict)
+        got = [str(r) for r in rd]
+        out["reread"] = ["ok", got]
+    except MafFormatException as e:
+        out["reread"] = ["MafFormatException", e.tpe.name, str(e)[:120]]
+    except Exception as e:
+        out["reread"] = ["exception", type(e).__name__, str(e)[:120]]
+    return {"cmp": {"sless": True}, "extra": out}
+
+
+def _oracle_sless(case, obs):
+    ex = obs["extra"]
+    out = []
+    if ex["open"] is not None:
+        return out                     # the header itself was refused: nothing emitted
+    for o in ex["outcomes"]:
+        if o == "refused-but-wrote":
+            out.append("refused-record-contributed-bytes/scheme-less | %s" % ex["outcomes"])
+        if o.startswith("other-exception"):
+            out.append("refused-with-other-exception/%s | scheme-less" % o.split(":")[1])
+    if ex["closed"] != "ok":
+        out.append("close-failed/scheme-less | %s" % ex["closed"])
+    n_acc = sum(1 for o in ex["outcomes"] if o == "accepted")
+    if n_acc and ex["reread"] is not None:
+        if ex["reread"][0] != "ok":
+            out.append("emitted-file-rejected-by-strict-reader/scheme-less | %s (file %r)" % (ex["reread"][1:], ex["text"][:80]))
+        elif ex["reread"][1] != ex["accepted_texts"]:
+            out.append("emitted-file-reads-back-differently/scheme-less | wrote %s read %s" % (ex["accepted_texts"][:3], ex["reread"][1][:3]))
+    return out
 
 
 def generate(rng, n):
@@ -31,6 +138,8 @@ def generate(rng, n):
         r = rng.random()
         if r < 0.03:
             out.append(_C05._gen_hdredit(rng))
+        elif r < 0.09:
+            out.append(_gen_sless(rng))
         else:
             out.append(G.gen_writeseq(rng) if r < 0.15 else G.gen_write(rng, strict_share=0.85))
     return out
@@ -66,22 +175,28 @@ def corpus():
 
 
 def skip_compare(case):
-    return case["kind"] == "hdredit" or G.model_dontcare(case)
+    return case["kind"] in ("hdredit", "sless") or G.model_dontcare(case)
 
 
 def shrink(case):
+    if case["kind"] == "sless":
+        return (dict(case, records=case["records"][:i] + case["records"][i + 1:]) for i in range(len(case["records"])) if len(case["records"]) > 1)
     return iter(()) if case["kind"] == "hdredit" else G.shrink(case)
 
 
 def to_model(case):
-    return [4] if case["kind"] == "hdredit" else G.to_model(case)
+    return [4] if case["kind"] in ("hdredit", "sless") else G.to_model(case)
 
 
 def from_model(case, sx):
-    return {"hdredit": True} if case["kind"] == "hdredit" else G.from_model(case, sx)
+    if case["kind"] in ("hdredit", "sless"):
+        return {case["kind"]: True}
+    return G.from_model(case, sx)
 
 
 def run_impl(case):
+    if case["kind"] == "sless":
+        return _run_sless(case)
     return _C05._run_hdredit(case) if case["kind"] == "hdredit" else G.run_impl(case)
 
 
@@ -90,6 +205,8 @@ def comparable(obs):
 
 
 def oracle(case, obs):
+    if case["kind"] == "sless":
+        return _oracle_sless(case, obs)
     if case["kind"] == "hdredit":
         ex = obs["extra"]
         out = []
